@@ -60,6 +60,7 @@ def _run_block(args):
     prop, seed, tier, indices, wall_deadline, det_check = args
     faulthandler.dump_traceback_later(3600, exit=True)
     mod = load_prop(prop)
+    known = load_known()
     run_timeout = float(os.environ.get('VERIF_RUN_TIMEOUT_S', 0)) or mod.PLAN[tier].get('run_timeout_s', RUN_TIMEOUT_S)
     agg = new_agg()
     for i in indices:
@@ -88,7 +89,7 @@ def _run_block(args):
             continue
         finally:
             signal.setitimer(signal.ITIMER_REAL, 0)
-        merge_result(agg, res, sc, i)
+        merge_result(agg, res, sc, i, known, prop)
     faulthandler.cancel_dump_traceback_later()
     _cleanup_peers()
     return agg
@@ -107,7 +108,7 @@ def new_agg():
     return {'evaluations': 0, 'digests': set(), 'nontrivial_digests': set(),
             'faults_fired': {}, 'dontcare': {}, 'counters': {},
             'seam_calls': 0, 'sim_ns': 0, 'ops': 0, 'violations': [],
-            'harness_errors': [], 'samples': [], 'skipped': 0,
+            'harness_errors': [], 'samples': [], 'skipped': 0, 'kf_hits': {},
             'determinism_pairs': 0, 'states': set()}
 
 
@@ -116,7 +117,7 @@ def _addd(dst, src):
         dst[k] = dst.get(k, 0) + v
 
 
-def merge_result(agg, res, sc, i):
+def merge_result(agg, res, sc, i, known=(), prop=None):
     agg['evaluations'] += 1
     agg['digests'].add(res['digest'])
     if res.get('nontrivial'):
@@ -132,7 +133,15 @@ def merge_result(agg, res, sc, i):
     if len(agg['samples']) < 2 and res.get('nontrivial'):
         agg['samples'].append({'index': i, 'scenario': sc, 'outcome': res.get('outcome')})
     for v in res.get('violations', []):
-        if len(agg['violations']) < 40:
+        # classify in the worker: instances explained by an open known finding are counted, not stored,
+        # so that they can never crowd an unexplained violation of the same clause out of the record
+        scv = dict(sc, **v['scenario_patch']) if v.get('scenario_patch') else sc
+        kfs = [k for k in known if kf_match(k, prop, v, scv)]
+        if kfs:
+            agg['kf_hits'][kfs[0]['id']] = agg['kf_hits'].get(kfs[0]['id'], 0) + 1
+            agg['counters']['runs_explained_by_known_findings'] = agg['counters'].get('runs_explained_by_known_findings', 0) + 1
+            continue
+        if len(agg['violations']) < 12:
             agg['violations'].append({'index': i, 'scenario': sc, 'violation': v,
                                       'digest': res['digest']})
         agg['counters']['violating_runs'] = agg['counters'].get('violating_runs', 0) + 1
@@ -144,12 +153,18 @@ def merge_agg(a, b):
     a['digests'] |= b['digests']
     a['nontrivial_digests'] |= b['nontrivial_digests']
     a['states'] |= b['states']
-    for k in ('faults_fired', 'dontcare', 'counters'):
+    for k in ('faults_fired', 'dontcare', 'counters', 'kf_hits'):
         _addd(a[k], b[k])
     for k in ('seam_calls', 'sim_ns', 'ops', 'skipped', 'determinism_pairs'):
         a[k] += b[k]
-    a['violations'] += b['violations']
-    a['harness_errors'] += b['harness_errors']
+    # keep at most 60 recorded instances per (clause, signature); all are counted in counters
+    cnt = a.setdefault('_vcount', {})
+    for item in b['violations']:
+        k = vkey(item['violation'])
+        cnt[k] = cnt.get(k, 0) + 1
+        if cnt[k] <= 60:
+            a['violations'].append(item)
+    a['harness_errors'] += b['harness_errors'][:20]
     if len(a['samples']) < 3:
         a['samples'] += b['samples'][:3 - len(a['samples'])]
 
@@ -392,6 +407,7 @@ def _run_check_inner(prop, tier, seed, mod, plan, n, jobs, budget_s, known, agg,
                 for fu in futs:
                     fu.cancel()
     wall_batch = time.time() - t0
+    _addd(kf_hit, agg['kf_hits'])
 
     # 3. classify violations
     groups = {}
